@@ -151,6 +151,25 @@ class Sub:
 
 SRC = Path(os.environ.get("VERIF_REPO", "/repo")).resolve() / "src"
 
+_OWN_BASE = None
+
+
+def scratch_dir() -> Path:
+    """Per-PROCESS scratch directory for the files a check writes (never shared between the forked shards of the thorough
+    tier: two shards writing the same file name would look like a defect of the code under test). The base directory is
+    created by the runner before it forks and removed when it exits; it lives outside /repo and /verif."""
+    global _OWN_BASE
+    base = os.environ.get("VERIF_TMP")
+    if not base or not Path(base).is_dir():
+        import tempfile
+
+        _OWN_BASE = tempfile.TemporaryDirectory(prefix="curies-verif-")
+        base = _OWN_BASE.name
+        os.environ["VERIF_TMP"] = base
+    d = Path(base) / f"p{os.getpid()}"
+    d.mkdir(parents=True, exist_ok=True)
+    return d
+
 
 def _passes_through_sut(tb) -> bool:
     """Does the traceback contain a frame of the code under test?"""
